@@ -41,6 +41,10 @@ POOL_TEXT = {
     "span_amb": "S : A B # s (0 1) ; A : a # x1 | a a # x2 ; B : a # y1 | a a # y2",
     "nonstrict_dead": "S : a S # n (1) | b # 0 ; U : U a | c",
     "brackets": "S : S '(' S ')' # n (0 2) | # e",
+    "opt_chain": "S : a O b # seq (0 1 2) ; O : L # 0 ; L : # nil | L x # cons (0 1)",
+    "pass_eps": "S : A A # 1 ; A : a # 0 | # e",
+    "pass_eps2": "S : B # 0 ; B : C D # 1 ; C : c # 0 | # ce ; D : d # dd (0) | # de",
+    "pass_eps3": "S : a B C # top (1 2) ; B : C C # 0 ; C : # ce 2 | c # 0 | B b # bb (0)",
     "if_stmt": "P : P T # seq (0 1) | T # 0 ; T : i c T # if (2) | i c T e T # ife (2 4) | x ';' # x | '{' P '}' # 1",
 }
 
